@@ -28,6 +28,12 @@
 #include <librdsparser.h>
 #include <librdsparser_private.h>
 
+#ifdef HARNESS_MT
+#include <pthread.h>
+#define TLS __thread
+#else
+#define TLS
+#endif
 #define NINST 8
 #define GUARD 64
 #define NKEYS 13
@@ -40,14 +46,15 @@ typedef struct
     unsigned char post[GUARD];
 } slot_t;
 
-static slot_t slots[NINST];
-static rdsparser_t *inst[NINST];
-static int on_heap[NINST];
-static unsigned char saved[NINST][sizeof(rdsparser_t)];
-static char last[NINST][NKEYS][VALSZ];
-static int full_mode = 0;
+static TLS slot_t slots[NINST];
+static TLS rdsparser_t *inst[NINST];
+static TLS int on_heap[NINST];
+static TLS unsigned char saved[NINST][sizeof(rdsparser_t)];
+static TLS char last[NINST][NKEYS][VALSZ];
+static TLS int full_mode = 0;
+static TLS FILE *out;
 
-static int fail_malloc = 0;
+static TLS int fail_malloc = 0;
 #ifndef RDSPARSER_DISABLE_HEAP
 void *__real_malloc(size_t);
 void *
@@ -66,8 +73,8 @@ static const char *keys[NKEYS] =
 
 /* ---- events ---- */
 #define MAXEV 64
-static char events[MAXEV][VALSZ];
-static int nevents;
+static TLS char events[MAXEV][VALSZ];
+static TLS int nevents;
 
 static int
 index_of(const rdsparser_t *rds)
@@ -214,8 +221,8 @@ check_guards(int k, long opno)
     {
         if (slots[k].pre[i] != 0xC3 || slots[k].post[i] != 0xC3)
         {
-            printf("GUARD inst %d op %ld\n", k, opno);
-            fflush(stdout);
+            fprintf(out, "GUARD inst %d op %ld\n", k, opno);
+            fflush(out);
             exit(4);
         }
     }
@@ -245,7 +252,7 @@ print_deltas(void)
         {
             if (last[i][0][0] != '\0')
             {
-                printf("D %d gone\n", i);
+                fprintf(out, "D %d gone\n", i);
                 for (int k = 0; k < NKEYS; k++) last[i][k][0] = '\0';
             }
             continue;
@@ -255,31 +262,27 @@ print_deltas(void)
             fmt_key(buf, inst[i], k);
             if (full_mode || strcmp(buf, last[i][k]) != 0)
             {
-                printf("D %d %s %s\n", i, keys[k], buf);
+                fprintf(out, "D %d %s %s\n", i, keys[k], buf);
                 strcpy(last[i][k], buf);
             }
         }
     }
 }
 
-int
-main(int argc, char **argv)
+static int
+run_script(const char *script, FILE *output, int full)
 {
-    if (argc < 2)
-    {
-        fprintf(stderr, "usage: rds_harness script [full]\n");
-        return 2;
-    }
-    FILE *f = fopen(argv[1], "r");
-    if (!f) { perror(argv[1]); return 2; }
-    full_mode = argc > 2 && strcmp(argv[2], "full") == 0;
+    out = output;
+    FILE *f = fopen(script, "r");
+    if (!f) { perror(script); return 2; }
+    full_mode = full;
     for (int i = 0; i < NINST; i++)
     {
         memset(slots[i].pre, 0xC3, GUARD);
         memset(slots[i].post, 0xC3, GUARD);
     }
 
-    static char line[8192];
+    static TLS char line[8192];
     long opno = 0;
     while (fgets(line, sizeof line, f))
     {
@@ -290,7 +293,7 @@ main(int argc, char **argv)
         {
             drop_all();
             opno = 0;
-            printf("%s\n", line);
+            fprintf(out, "%s\n", line);
             continue;
         }
         int k = 0, pos = 0;
@@ -304,7 +307,7 @@ main(int argc, char **argv)
         long ret = 0;
         nevents = 0;
         opno++;
-        printf("O %ld\n", opno);
+        fprintf(out, "O %ld\n", opno);
         switch (opc)
         {
         case 'I':
@@ -431,8 +434,8 @@ main(int argc, char **argv)
             fprintf(stderr, "harness: unknown op %c\n", opc);
             return 2;
         }
-        for (int i = 0; i < nevents; i++) printf("%s\n", events[i]);
-        printf("R %ld\n", ret);
+        for (int i = 0; i < nevents; i++) fprintf(out, "%s\n", events[i]);
+        fprintf(out, "R %ld\n", ret);
         print_deltas();
         for (int i = 0; i < NINST; i++) check_guards(i, opno);
     }
@@ -440,3 +443,41 @@ main(int argc, char **argv)
     fclose(f);
     return 0;
 }
+
+#ifndef HARNESS_MT
+int
+main(int argc, char **argv)
+{
+    if (argc < 2)
+    {
+        fprintf(stderr, "usage: rds_harness script [full]\n");
+        return 2;
+    }
+    return run_script(argv[1], stdout, argc > 2 && strcmp(argv[2], "full") == 0);
+}
+#else
+/* one thread per script, each with its own instances; traces go to <script>.mt */
+static void *
+thread_main(void *arg)
+{
+    const char *script = arg;
+    char path[4096];
+    snprintf(path, sizeof path, "%s.mt", script);
+    FILE *o = fopen(path, "w");
+    if (!o) { perror(path); return (void *)2; }
+    long rc = run_script(script, o, 0);
+    fclose(o);
+    return (void *)rc;
+}
+
+int
+main(int argc, char **argv)
+{
+    pthread_t th[64];
+    int n = argc - 1 > 64 ? 64 : argc - 1;
+    for (int i = 0; i < n; i++) pthread_create(&th[i], NULL, thread_main, argv[i + 1]);
+    long bad = 0;
+    for (int i = 0; i < n; i++) { void *r; pthread_join(th[i], &r); bad |= (long)r; }
+    return (int)bad;
+}
+#endif
